@@ -83,3 +83,36 @@ func vh_C09_front_scope_texts_Q() {
 	}
 	vhC09Finish(run, ok, "routes", engine, "Op")
 }
+
+// enum constants are user text too: with the experimental enum validation switched on their values are copied into
+// the generated file
+var vhC09EnumValues = []string{"b", "b c", "b-c", "b\"c", "b\\c", "b`c", "b'c", "é"}
+
+func vh_C09_front_enum_values_Q() {
+	engine := symxChoice("engine", 5)
+	n := symxChoice("value", len(vhC09EnumValues))
+	cfg := vhC09Config(engine, "")
+	cfg.ExperimentalConfig.GenerateEnumValidator = vhC09Flag("generateEnumValidator")
+	cfg.ExperimentalConfig.ValidateTopLevelOnlyEnum = vhC09Flag("validateTopLevelOnlyEnum")
+	routes := []vhC09Route{{name: "Op", verb: "POST", path: "/op/{k}", params: []vhC09Param{{name: "k", loc: "Path", typ: "Kind"}, {name: "q", loc: "Query", typ: "Kind"}, {name: "m", loc: "Body", typ: "Model"}}, result: 7}}
+	src := strings.Replace(vhC09Source(routes), `KindB Kind = "b"`, "KindB Kind = "+strconv.Quote(vhC09EnumValues[n]), 1)
+	run, ok := vhC09GenerateSrc(src, cfg)
+	vhC09Finish(run, ok, "routes", engine, "Op")
+}
+
+// C05, rendering side: with top-level enum validation on, the handler accepts exactly the enum's values - the case
+// labels of its switch are the constants' values, character for character
+func vh_C05_front_enum_values_Q() {
+	engine := symxChoice("engine", 5)
+	n := symxChoice("value", len(vhC09EnumValues))
+	cfg := vhC09Config(engine, "")
+	cfg.ExperimentalConfig.ValidateTopLevelOnlyEnum = true
+	routes := []vhC09Route{{name: "Op", verb: "GET", path: "/op", params: []vhC09Param{{name: "q", loc: "Query", typ: "Kind"}}, result: 1}}
+	src := strings.Replace(vhC09Source(routes), `KindB Kind = "b"`, "KindB Kind = "+strconv.Quote(vhC09EnumValues[n]), 1)
+	run, ok := vhC09GenerateSrc(src, cfg)
+	if !ok {
+		return
+	}
+	symxAssert(strings.Contains(run.text, `case "a", `+strconv.Quote(vhC09EnumValues[n])+":"), "C05.front.enum-parameter-accepts-exactly-the-declared-values")
+	symxCover("C05.front.enum-switch-read")
+}
